@@ -27,7 +27,7 @@ Variant gen(DataType t, Rng &r, bool big_strings) {
     }
 }
 
-struct PM { std::string name; DataType t; std::vector<MV> vals; bool judged = true; boost::optional<std::string> unit, definition; boost::optional<double> unc; std::string id; };
+struct PM { std::string name; DataType t; std::vector<MV> vals; bool judged = true; boost::optional<std::string> unit, definition; boost::optional<double> unc; std::string id; Property h[2]; /* long-lived handles: [0] the one create returned, [1] looked up once */ };
 
 struct H {
     Ctx &c; Rng &r; File f; Section s; std::string path; std::vector<PM> props; long serial = 0;
@@ -35,9 +35,17 @@ struct H {
     std::vector<Variant> genv(DataType t, size_t n) { std::vector<Variant> v; for (size_t i = 0; i < n; i++) v.push_back(gen(t, r, !c.quick())); return v; }
     size_t len() { int k = (int)r.u(10); if (k == 0) return 0; if (k == 1) return c.quick() ? 64 : 1 + r.u(4096); return 1 + r.u(12); }
 
-    void compare(const PM &w, const char *when) {
+    // a property is reached through a fresh lookup or through one of two long-lived handles (state kept per handle object would show)
+    Property pick(PM &w, bool by_id = false) {
+        int k = (int)r.u(3);
+        if (k == 0) return by_id ? s.getProperty(w.id) : s.getProperty(w.name);
+        Property &h = w.h[k - 1]; if (!h) h = r.chance(0.5) ? s.getProperty(w.name) : s.getProperty(w.id);
+        c.count(k == 1 ? "via:handle-a" : "via:handle-b"); return h;
+    }
+    void drop_handles() { for (auto &w : props) { w.h[0] = nix::none; w.h[1] = nix::none; } }
+    void compare(PM &w, const char *when) {
         std::string K = "C14/" + dtname(w.t) + "/";
-        Property p; try { p = r.chance(0.5) ? s.getProperty(w.name) : s.getProperty(w.id); } catch (std::exception &e) { c.check(false, K + "lookup", std::string("getProperty threw ") + e.what()); return; }
+        Property p; try { p = pick(w, r.chance(0.5)); } catch (std::exception &e) { c.check(false, K + "lookup", std::string("getProperty threw ") + e.what()); return; }
         if (!p) { c.check(false, K + "lookup", "property '" + w.name + "' not found (" + when + ")"); return; }
         try {
             c.check(p.dataType() == w.t, K + "dtype", [&] { return "dataType " + dtname(p.dataType()) + " created as " + dtname(w.t) + " (" + when + ")"; });
@@ -65,17 +73,17 @@ struct H {
                 if (o == 0) { c.op("createProperty dtype-only " + dtname(t)); p = s.createProperty(w.name, t); w.judged = false; /* values of a never-assigned property are not specified (D16) */ }
                 else if (o == 1) { Variant v = gen(t, r, false); c.op("createProperty single-value " + dtname(t)); p = s.createProperty(w.name, v); w.vals = {of(v)}; }
                 else { std::vector<Variant> v = genv(t, 1 + r.u(12)); c.op("createProperty value-vector " + dtname(t) + " | n=" + str(v.size())); p = s.createProperty(w.name, v); for (auto &x : v) w.vals.push_back(of(x)); }
-                w.id = p.id(); props.push_back(w); c.count("type:" + dtname(t)); break; }
+                w.id = p.id(); w.h[0] = p; props.push_back(w); c.count("type:" + dtname(t)); break; }
             case 1: {   // assign / replace (shorter, longer, empty)
-                PM &w = props[r.u(props.size())]; Property p = s.getProperty(w.name); std::vector<Variant> v = genv(w.t, len());
+                PM &w = props[r.u(props.size())]; Property p = pick(w); std::vector<Variant> v = genv(w.t, len());
                 c.op("values-assign " + dtname(w.t) + (v.size() < w.vals.size() ? " shorter" : v.size() > w.vals.size() ? " longer" : " same-length") + " | n=" + str(v.size()));
                 p.values(v); w.vals.clear(); for (auto &x : v) w.vals.push_back(of(x)); w.judged = true; c.count("values_assigned", (long)v.size()); break; }
             case 2: {   // clear
-                PM &w = props[r.u(props.size())]; Property p = s.getProperty(w.name); int q = (int)r.u(3);
+                PM &w = props[r.u(props.size())]; Property p = pick(w); int q = (int)r.u(3);
                 c.op(std::string(q == 0 ? "values-none " : q == 1 ? "deleteValues " : "values-empty-vector ") + dtname(w.t));
                 if (q == 0) p.values(nix::none); else if (q == 1) p.deleteValues(); else p.values(std::vector<Variant>{}); w.vals.clear(); w.judged = true; break; }
             case 3: {   // unit / uncertainty / definition set and none
-                PM &w = props[r.u(props.size())]; Property p = s.getProperty(w.id); int q = (int)r.u(6);
+                PM &w = props[r.u(props.size())]; Property p = pick(w, true); int q = (int)r.u(6);
                 if (q == 0) { static const char *us[] = {"mV", "ms", "uS/cm", "\xc2\xb5V", "mumol/l", "maximum", "arbitrary unit", "Hz"}; std::string u = r.pick(us); c.op("unit set"); p.unit(u); std::string d = u; d.erase(std::remove_if(d.begin(), d.end(), [](char ch) { return ch > 0 && std::isblank(ch); }), d.end()); w.unit = d; }
                 else if (q == 1) { c.op("unit none"); p.unit(nix::none); w.unit = boost::none; }
                 else if (q == 2) { double u = r.chance(0.2) ? 0.0 : r.real() * 10; c.op("uncertainty set"); p.uncertainty(u); w.unc = u; }
@@ -84,14 +92,14 @@ struct H {
                 else { c.op("definition none"); p.definition(nix::none); w.definition = boost::none; }
                 break; }
             case 4: {   // type-mismatching assignment must be rejected and must not change the values
-                PM &w = props[r.u(props.size())]; Property p = s.getProperty(w.name); DataType other = w.t; while (other == w.t) other = r.pick(TYPES);
+                PM &w = props[r.u(props.size())]; Property p = pick(w); DataType other = w.t; while (other == w.t) other = r.pick(TYPES);
                 std::vector<Variant> v = genv(w.t, 1 + r.u(6)); size_t pos = r.chance(0.5) ? 0 : r.u(v.size()); v[pos] = gen(other, r, false); if (r.chance(0.3)) v = genv(other, 1 + r.u(5));
                 c.op("values-assign type-mismatch " + dtname(w.t) + " at-" + (pos == 0 ? "first" : "later") + (v.size() == w.vals.size() ? " same-length" : " other-length"));
                 bool threw = false; try { p.values(v); } catch (std::exception &) { threw = true; }
                 c.check(threw, "C14/mismatch-accepted/" + dtname(w.t), [&] { return "values of type " + dtname(other) + " accepted by a " + dtname(w.t) + " property"; });
                 if (!threw) { w.vals.clear(); for (auto &x : v) w.vals.push_back(of(x)); }
                 break; }
-            case 5: { c.op("close+reopen"); std::string sn = s.name(); s = nix::none; f.close(); f = File::open(path, r.chance(0.5) ? FileMode::ReadWrite : FileMode::ReadOnly); s = f.getSection(sn); compare_all("after reopen"); if (f.fileMode() == FileMode::ReadOnly) { s = nix::none; f.close(); f = File::open(path, FileMode::ReadWrite); s = f.getSection(sn); } break; }
+            case 5: { c.op("close+reopen"); std::string sn = s.name(); drop_handles(); s = nix::none; f.close(); f = File::open(path, r.chance(0.5) ? FileMode::ReadWrite : FileMode::ReadOnly); s = f.getSection(sn); compare_all("after reopen"); if (f.fileMode() == FileMode::ReadOnly) { drop_handles(); s = nix::none; f.close(); f = File::open(path, FileMode::ReadWrite); s = f.getSection(sn); } break; }
             case 6: { size_t i = r.u(props.size()); c.op("deleteProperty"); s.deleteProperty(props[i].name); props.erase(props.begin() + (long)i); break; }
             }
         } catch (std::exception &e) { c.check(false, "C14/legal-op-threw/op" + str(k), std::string("valid operation threw: ") + e.what()); }
@@ -105,7 +113,7 @@ struct H {
         // reopen needs a root section name; keep the property section at root level for the reopen step
         s = f.getSection("sec");
         for (int i = 0; i < n; i++) op();
-        c.nontrivial = c.checks > 20; s = nix::none; f.close();
+        c.nontrivial = c.checks > 20; drop_handles(); s = nix::none; f.close();
     }
 };
 void run_case(Ctx &c) { H h(c); h.run(); }
